@@ -526,7 +526,7 @@ def info_enum(e, out):
 
 ATTR_NAMES = ["my", "conf", "opt", "x_attr", "ns::cfg"]
 outer = []          # dicts
-ff_names, fv_names = [], []
+ff_names, fv_names, ft_names = [], [], []
 
 
 def gen_outer(idx, kind):
@@ -612,7 +612,12 @@ def emit_outer(r, out):
     out.append("pub struct %s {" % r["name"])
     members = []
     for m in r["magic"]:
-        members.append((m, MAGIC_TY[(r["kind"], m)], None))
+        ty = MAGIC_TY[(r["kind"], m)]
+        if m == "generics" and rng.random() < 0.6:
+            ty = rng.choice(["ast::Generics<syn::GenericParam>", "ast::Generics<ast::GenericParam<syn::Ident>>",
+                             "ast::Generics<ast::GenericParam<syn::TypeParam>>"] +
+                            ["ast::Generics<ast::GenericParam<%s>>" % n for n in ft_names[-3:]])
+        members.append((m, ty, None))
     if r["attrs_field"]:
         if r["attrs_field"] == "plain":
             members.append(("attrs", "Vec<syn::Attribute>", None))
@@ -694,6 +699,8 @@ def gen_outers(out, infos):
             ff_names.append(r["name"])
         if kind == "FV":
             fv_names.append(r["name"])
+        if kind == "FT":
+            ft_names.append(r["name"])
     for r in outer:
         info_outer(r, infos)
     return counts
